@@ -1,5 +1,5 @@
 (* C03 - Everything the authenticator emits is CTAP2 canonical CBOR. *)
-From Ctap Require Import Base Schema Wire Typed Procs Inst Tables ProcTables Canonical WireP SerP FramingP C03P ObSerRole ObDeclOrder FnShapes Shapes ObShapeResponse ObShapeFilters Deps ObDeps.
+From Ctap Require Import Base Schema Wire Typed Procs Inst Tables ProcTables Canonical WireP SerP FramingP C03P ObSerRole ObDeclOrder FnShapes Shapes ObShapeResponse ObShapeFilters Deps ObDeps ObShapeAuthdata.
 Local Open Scope string_scope.
 Local Open Scope Z_scope.
 
@@ -72,6 +72,10 @@ Proof. exact generated_shapes_filters. Qed.
 Theorem c03_modelled_dependencies_pinned : deps_hold lock_versions cargo_deps = true.
 Proof. exact generated_deps. Qed.
 
+(* further hand-modelled functions this property rests on *)
+Theorem c03_modelled_functions_unchanged_authdata : shapes_hold fn_shapes shapes_authdata = true.
+Proof. exact generated_shapes_authdata. Qed.
+
 Eval vm_compute in "ASSUMPTIONS c03_all_structs_ordered". Print Assumptions c03_all_structs_ordered.
 Eval vm_compute in "ASSUMPTIONS c03_encoder_canonical". Print Assumptions c03_encoder_canonical.
 Eval vm_compute in "ASSUMPTIONS c03_response_body_canonical". Print Assumptions c03_response_body_canonical.
@@ -84,3 +88,4 @@ Eval vm_compute in "ASSUMPTIONS c03_generated_decl_order". Print Assumptions c03
 Eval vm_compute in "ASSUMPTIONS c03_modelled_functions_unchanged_response". Print Assumptions c03_modelled_functions_unchanged_response.
 Eval vm_compute in "ASSUMPTIONS c03_modelled_functions_unchanged_filters". Print Assumptions c03_modelled_functions_unchanged_filters.
 Eval vm_compute in "ASSUMPTIONS c03_modelled_dependencies_pinned". Print Assumptions c03_modelled_dependencies_pinned.
+Eval vm_compute in "ASSUMPTIONS c03_modelled_functions_unchanged_authdata". Print Assumptions c03_modelled_functions_unchanged_authdata.
